@@ -46,7 +46,7 @@ def run(ctx):
     n_streams = ctx.scale(100, 700)
     hid = 0
     for si in range(n_streams):
-        prep = rng.choice(["server_fresh", "server_mid", "client_mid", "server_binding"])
+        prep = rng.choice(["server_fresh", "server_mid", "client_mid", "server_binding", "server_registered", "client_registered"])
         msgs = PR.valid_stream(rng, prep)
         if not msgs:
             continue
@@ -105,7 +105,7 @@ def run(ctx):
         "evaluations": evaluations,
         "distinct_nontrivial": len(distinct),
         "rule": "streams of 1-6 generated messages (two in five re-framed with non-minimal long-form lengths, outer envelope included) acceptable to a prepared session (fresh / mid-conversation / binding server, client with three "
-                "operations outstanding), cut at every single position, at every pair of positions for short streams, into random partitions with "
+                "operations outstanding, server / client with the custom control, filter and credential types registered and used), cut at every single position, at every pair of positions for short streams, into random partitions with "
                 "empty and 1-byte chunks, and byte by byte; each partition is fed to a fresh copy of the session and compared with the single "
                 "delivery (messages, order, final state incl. buffered residue); on every other run the caller's bytearray is overwritten after "
                 "each receive and earlier messages are re-compared; a sample of partitions is replayed on the Lean model; distinct = (stream, partition)",
